@@ -93,6 +93,10 @@ def do_check(pid, tier, keep=False, only=None):
             for u, _ in sel:
                 if u not in used_units:
                     used_units.append(u)
+            for u in list(used_units):
+                for rq in u.requires:
+                    if rq not in [x.name for x in used_units]:
+                        used_units.append(kunits[rq] if rq in kunits else K.KUnit(rq))
             krun = K.KaniRun(pid, used_units, keep=keep)
             krun.prepare()
             krun.build()
@@ -144,7 +148,7 @@ def do_check(pid, tier, keep=False, only=None):
                         undecided.append(f'{u.name}:{hn}: vacuity guard: cover {cv} is {res["covers"].get(cv)}')
                 rep['covers'] = res['covers']
                 if is_canary:
-                    failed = [k for k, s in res['obls'].items() if s == 'FAILURE']
+                    failed = [k for k, s in res['obls'].items() if s == 'FAILURE'] + [d['desc'] for d in res['panics']]
                     rep['status'] = 'canary-failed-as-required' if failed else 'CANARY DID NOT FAIL'
                     if not failed:
                         undecided.append(f'{u.name}:{hn}: vacuity guard: canary harness verified a false clause')
@@ -357,8 +361,8 @@ def do_replay(path):
         return do_check(rec['property'], 'quick', only=rec['unit'] if rec.get('backend') != 'kani' else f'{rec["unit"]}:{rec["harness"]}')
     props = load_props()
     u = K.KUnit(rec['unit'])
-    # all units that share the scratch copy are not needed for replay: only this one
-    k = K.KaniRun(rec['property'] + '.replay', [u])
+    # all units that share the scratch copy are not needed for replay: only this one (+ what it requires)
+    k = K.KaniRun(rec['property'] + '.replay', [u] + [K.KUnit(r) for r in u.requires])
     try:
         k.prepare(extra_tests={u.name: [c['code'] for c in rec['counterexample']]})
         rc, out = k.playback_native([c['test'] for c in rec['counterexample']])
